@@ -1486,7 +1486,7 @@ Proof. intros H. apply ctl_fields in H. destruct H as (A & _). unfold is_leader.
 (* the timer is untouched: same target, same elapsed, still leader *)
 Definition timer_same (r r' : raft) : Prop :=
   is_leader r' = true /\ r_lead_transferee r' = r_lead_transferee r /\
-  r_election_elapsed r' = r_election_elapsed r.
+  r_election_elapsed r' = r_election_elapsed r /\ r_vote r' = r_vote r.
 
 (* a NEW transfer was started by this message: different target, elapsed back to 0 *)
 Definition timer_restarted (r : raft) (m : msg) (r' : raft) : Prop :=
@@ -1499,12 +1499,13 @@ Definition timer_restarted (r : raft) (m : msg) (r' : raft) : Prop :=
    which has voted for itself, and a sender other than itself *)
 Definition timer_vote_reset (r : raft) (m : msg) (r' : raft) : Prop :=
   is_leader r' = true /\ m_type m = MsgRequestVote /\ vote_granted r m = true /\
-  r_lead_transferee r' = r_lead_transferee r /\ r_election_elapsed r' = 0.
+  r_lead_transferee r' = r_lead_transferee r /\ r_election_elapsed r' = 0 /\
+  r_vote r' = m_from m.
 
 Lemma cf_timer_same r r' : is_leader r = true -> cf MsgTimeoutNow r r' -> timer_same r r'.
 Proof.
   intros Hl [_ H]. pose proof (ctl_leader _ _ H) as A. apply ctl_fields in H.
-  destruct H as (_ & B & C0 & _). unfold timer_same. rewrite A. auto.
+  destruct H as (_ & B & C0 & _ & _ & D & _). unfold timer_same. rewrite A. auto.
 Qed.
 
 Lemma wf_cfg ty r r' : wf ty r r' -> cfg r' = cfg r.
@@ -1526,7 +1527,7 @@ Proof.
   apply step_pre_shape in Hx. destruct Hx as [->|[(r1 & c1 & -> & A)|(Hlt & r0 & l & -> & A)]].
   - apply step_main_shape in H. destruct H as [H|r1 H1 H2 H3 ->|H1 H2|H1 H2].
     + split; [apply ctl_cfg; apply H|]. right; left. apply cf_timer_same; assumption.
-    + pose proof (cf_timer_same _ _ Hl H3) as (A & B & C0).
+    + pose proof (cf_timer_same _ _ Hl H3) as (A & B & C0 & _).
       split; [destruct H3 as [_ K]; apply ctl_cfg in K; exact K|].
       right; right; right. unfold timer_vote_reset. repeat split; auto.
     + destruct H2 as [H|H2 H3 H4 H5 H6|x H2 H3 H4 H5 H6 H7|o H2 H3 H4 H5 ->|H2 H3].
@@ -1534,7 +1535,7 @@ Proof.
       * split; [eapply wf_cfg; exact H3|]. left. exact H4.
       * split; [apply ctl_cfg; exact H3|]. right; left.
         pose proof (ctl_leader _ _ H3) as A. apply ctl_fields in H3.
-        destruct H3 as (_ & B & C0 & _). unfold timer_same. rewrite A. auto.
+        destruct H3 as (_ & B & C0 & _ & _ & D & _). unfold timer_same. rewrite A. auto.
       * split; [reflexivity|]. left. reflexivity.
       * pose proof H3 as (Hself & Hne & _). apply tl_started_facts in H3. destruct H3 as [A _].
         split; [apply ctl_cfg in A; exact A|]. right; right; left.
@@ -1600,15 +1601,15 @@ Lemma tick_heartbeat_tail r1 hr r' b :
      Ok (fst z, true)
    else Ok (r1, hr)) = Ok (r', b) ->
   cfg r' = cfg r1 /\ is_leader r' = true /\ r_lead_transferee r' = r_lead_transferee r1 /\
-  r_election_elapsed r' = r_election_elapsed r1.
+  r_election_elapsed r' = r_election_elapsed r1 /\ r_vote r' = r_vote r1.
 Proof.
   intros Hl H. destruct (r_heartbeat_timeout r1 <=? r_heartbeat_elapsed r1).
   - inv_bind H. inversion H; subst; clear H. destruct x as [r2 c]. cbn [fst].
     apply step_local_leader in Hx; [|apply is_leader_state; exact Hl|reflexivity|right; reflexivity].
     apply sl_out_beat in Hx; [|reflexivity]. destruct Hx as [_ K].
     pose proof (ctl_leader _ _ K) as A. pose proof (ctl_cfg _ _ K) as B.
-    apply ctl_fields in K. destruct K as (_ & K1 & K2 & _).
-    repeat split; [exact B|rewrite A; exact Hl|exact K1|exact K2].
+    apply ctl_fields in K. destruct K as (_ & K1 & K2 & _ & _ & K3 & _).
+    repeat split; [exact B|rewrite A; exact Hl|exact K1|exact K2|exact K3].
   - inversion H; subst. auto.
 Qed.
 
@@ -1618,7 +1619,7 @@ Theorem transfer_timer_tick r r' b :
   (r_lead_transferee r' = None \/
    (is_leader r' = true /\ r_lead_transferee r' = r_lead_transferee r /\
     r_election_elapsed r' = r_election_elapsed r + 1 /\
-    r_election_elapsed r' < r_election_timeout r')).
+    r_election_elapsed r' < r_election_timeout r' /\ r_vote r' = r_vote r)).
 Proof.
   intros Hl H. unfold tick in H. rewrite (is_leader_state _ Hl) in H.
   unfold tick_heartbeat in H.
@@ -1658,8 +1659,9 @@ Proof.
       split; [congruence|]. left. congruence.
     + inversion H; subst. split; [exact Hc4|]. left. exact Hn4.
   - inversion Hx; subst; clear Hx. rewrite Hl1 in H. cbn [negb] in H.
-    apply tick_heartbeat_tail in H; [|exact Hl1]. destruct H as (A & B & C0 & D).
+    apply tick_heartbeat_tail in H; [|exact Hl1]. destruct H as (A & B & C0 & D & V).
     split; [exact A|]. right. split; [exact B|]. split; [exact C0|]. split; [exact D|].
+    split; [|exact V].
     apply N.leb_gt in Eexp. rewrite D.
     assert (E : r_election_timeout r' = r_election_timeout r).
     { unfold cfg in A. inversion A. reflexivity. }
@@ -1671,7 +1673,7 @@ Theorem transfer_expires r r' b :
   tick r = Ok (r', b) -> r_lead_transferee r' = None.
 Proof.
   intros Hl Hexp H. apply transfer_timer_tick in H; [|exact Hl].
-  destruct H as (A & [H|(_ & _ & B & C0)]); [exact H|].
+  destruct H as (A & [H|(_ & _ & B & C0 & _)]); [exact H|].
   assert (E : r_election_timeout r' = r_election_timeout r).
   { unfold cfg in A. inversion A. reflexivity. }
   lia.
@@ -2081,4 +2083,57 @@ Proof.
     destruct Hp as (P1 & P2 & P3 & P4 & P5).
     split; [congruence|]. split; [congruence|]. split; [congruence|]. split; [congruence|].
     destruct P5 as [P5|P5]; [left; exact P5|right; congruence].
+Qed.
+
+(* ------------------------------------------------------------------ *)
+(* Only a MsgTransferLeader can create or retarget a pending transfer; every other
+   input, in every state, leaves lead_transferee as it is or clears it *)
+Definition lt_mono (r r' : raft) : Prop :=
+  cfg r' = cfg r /\ forall t, r_lead_transferee r' = Some t -> r_lead_transferee r = Some t.
+
+Lemma lt_mono_refl r : lt_mono r r. Proof. split; auto. Qed.
+Lemma lt_mono_trans a b c : lt_mono a b -> lt_mono b c -> lt_mono a c.
+Proof. intros [A B] [C0 D]. split; [congruence|auto]. Qed.
+Lemma wf_lt_mono ty r r' : wf ty r r' -> lt_mono r r'.
+Proof. intros (_ & A & B). split; assumption. Qed.
+Lemma ctl_lt_mono r r' : ctl r' = ctl r -> lt_mono r r'.
+Proof.
+  intros H. split; [apply ctl_cfg; exact H|]. apply ctl_fields in H.
+  destruct H as (_ & A & _). intros t. rewrite A. auto.
+Qed.
+
+Theorem step_lt_mono r m r' c :
+  step r m = Ok (r', c) -> m_type m <> MsgTransferLeader -> lt_mono r r'.
+Proof.
+  intros H Hty. rewrite step_eq in H. inv_bind H.
+  assert (Hmain : forall r0, step_main r0 m = Ok (r', c) -> lt_mono r0 r').
+  { intros r0 K. apply step_main_shape in K. destruct K as [K|r1 K1 K2 K3 ->|K1 K2|K1 K2].
+    - apply ctl_lt_mono. apply K.
+    - eapply lt_mono_trans; [apply ctl_lt_mono; apply K3|]. split; [reflexivity|auto].
+    - destruct K2 as [K|K2 K3 _ _ _|y K2 K3 _ _ _ _|o K2 _ _ _ _|K2 _]; try contradiction.
+      + apply ctl_lt_mono. apply K.
+      + eapply wf_lt_mono; exact K3.
+      + apply ctl_lt_mono. exact K3.
+    - eapply wf_lt_mono; exact K2. }
+  apply step_pre_shape in Hx. destruct Hx as [->|[(r1 & c1 & -> & A)|(Hlt & r0 & l & -> & A)]].
+  - apply Hmain. exact H.
+  - inversion H; subst. apply ctl_lt_mono. apply A.
+  - apply become_follower_tn in A. eapply lt_mono_trans; [eapply wf_lt_mono; exact A|].
+    apply Hmain. exact H.
+Qed.
+
+Theorem tick_lt_mono r r' b : tick r = Ok (r', b) -> lt_mono r r'.
+Proof.
+  intros H. destruct (is_leader r) eqn:El.
+  - apply transfer_timer_tick in H; [|exact El]. destruct H as (A & [H|(_ & B & _)]).
+    + split; [exact A|]. intros t Ht. congruence.
+    + split; [exact A|]. intros t. rewrite B. auto.
+  - unfold tick in H.
+    assert (Hs : r_state r <> Leader) by (unfold is_leader in El; destruct (r_state r); try discriminate; congruence).
+    assert (He : tick_election r = Ok (r', b)) by (destruct (r_state r); try exact H; congruence).
+    clear H. unfold tick_election in He.
+    match type of He with (if ?c then _ else _) = _ => destruct c end.
+    + inversion He; subst. split; [reflexivity|auto].
+    + inv_bind He. inversion He; subst; clear He. destruct x as [r1 c]. cbn [fst].
+      apply step_lt_mono in Hx; [|discriminate]. destruct Hx as [A B]. split; [exact A|exact B].
 Qed.
